@@ -446,17 +446,21 @@ def _method(proj, ci, f, ctx, containers, tested_foreign, findings, stats):
 
     # ---------------- instance level: guarded regions
     regions = []      # (tests, statements in the guarded region)
+    after_of = {}     # id(first statement of an `if` region) -> the statements that follow the `if` in its block
     def scan(stmts, top):
         for i, st in enumerate(stmts):
             if isinstance(st, ast.If):
                 test = ctx.expand1(st.test)       # a local bound once to getattr(self, 'X', None) / self.X stands for it
                 attrs = {a for a in _self_attrs_in(test, sn)}
                 pres = {a for a in attrs if _presence_tested(test, a)}
+                if not pres and top and attrs and _returns(st.body) and not st.orelse:
+                    regions.append(([test], stmts[i + 1:], attrs, ("flag-only", st)))        # candidate validity flag (decided below)
                 if pres:
                     if _returns(st.body) and not st.orelse:
-                        regions.append(([test], stmts[i + 1:], pres))
+                        regions.append(([test], stmts[i + 1:], pres, st if top else None))
                     else:
-                        regions.append(([test], st.body + st.orelse, pres))
+                        regions.append(([test], st.body + st.orelse, pres, None))
+                        after_of[id(st.body[0])] = stmts[i + 1:]
                 scan(st.body, False)
                 scan(st.orelse, False)
             elif isinstance(st, (ast.For, ast.While)):
@@ -468,13 +472,81 @@ def _method(proj, ci, f, ctx, containers, tested_foreign, findings, stats):
     if sn is not None and f.name != "__init__":
         scan(body, True)
     done = set()
-    for tests, stmts, pres in regions:
+    done_flag = set()
+    for tests, stmts, pres, early in regions:
         stores = [(t, v, s) for t, v, s in _stores_in(stmts)
                   if isinstance(t, ast.Attribute) and isinstance(t.value, ast.Name) and t.value.id == sn]
         stored_attrs = {t.attr for t, _, _ in stores}
-        if not (stored_attrs & pres):
-            continue          # the presence-tested location is not (re)filled here: not a cache of this region
+        flag_only = isinstance(early, tuple)
+        if flag_only:
+            early = early[1]
+        if flag_only or not (stored_attrs & pres):
+            # the presence-tested location is not (re)filled here: not a cache of this region -- unless it is a VALIDITY FLAG:
+            # `if self.flag: return` at the top of a method whose remaining statements store attributes computed from the
+            # method's PARAMETERS.  The flag (state assigned by methods, no parameter in the test) says "the stored value is
+            # current" without saying for which argument: a later call with another argument keeps the old value.
+            if early is not None and len(pres) == 1 and not (_names_in(tests[0]) & ctx.params) and set(_self_attrs_in(tests[0], sn)) == pres \
+                    and next(iter(pres)) in ctx.mutable_attrs and not any(isinstance(n, ast.Raise) for n in ast.walk(early)):
+                flag = next(iter(pres))
+                # a FLAG: every assignment of it, anywhere in the class family, is a constant (True / False / 0 / 1 / None)
+                isflag = True
+                for c_ in proj.all_classes():
+                    if not (any(b is c_ for b in proj.mro(ci)) or any(b is ci for b in proj.mro(c_))):
+                        continue
+                    for n_ in ast.walk(c_.node):
+                        if isinstance(n_, ast.Assign) and any(isinstance(t_, ast.Attribute) and t_.attr == flag for t_ in n_.targets) and not isinstance(n_.value, ast.Constant):
+                            isflag = False
+                        if isinstance(n_, ast.AugAssign) and isinstance(n_.target, ast.Attribute) and n_.target.attr == flag:
+                            isflag = False
+                if not isflag:
+                    continue
+                kept = {t.attr for t, _, _ in _stores_in(early.body) if isinstance(t, ast.Attribute) and isinstance(t.value, ast.Name) and t.value.id == sn}
+                for t, v, s in stores:
+                    if t.attr in kept or (id(s), t.attr) in done_flag:
+                        continue
+                    dall = ctx.deps(v, False)
+                    d = {p_ for p_ in dall if p_.split(".")[0].split("[")[0] in ctx.params}
+                    if d and not isinstance(s, ast.AugAssign) and "%s.%s" % (sn, t.attr) not in dall:       # (an accumulator is not a cache)
+                        done_flag.add((id(s), t.attr))
+                        stats["memo_stores"] += 1
+                        findings.append(Finding(f, s.lineno, t.attr, "cached attribute",
+                                                "`self.%s` is left as it is when the flag `self.%s` is set (`%s`, line %d), but it is computed from the argument %s: the flag records THAT a value was stored, not for which argument -- a later call with another argument (another field, the same integrator object in a later run) silently keeps the value of the earlier one"
+                                                % (t.attr, flag, unparse(tests[0])[:60], early.lineno, ", ".join("`%s`" % x for x in sorted(d)))))
+            continue
         cov = _guard_cover(ctx, tests, stored_attrs | pres)
+        # what the region stores through a method of its own object: `self.m(args)` where m assigns self.Y -- the value of Y is
+        # computed from the arguments of the call
+        for st_ in stmts:
+            for n_ in ast.walk(st_):
+                if isinstance(n_, ast.Call) and isinstance(n_.func, ast.Attribute) and isinstance(n_.func.value, ast.Name) and n_.func.value.id == sn and f.cls is not None:
+                    m_ = proj.resolve(f.cls, n_.func.attr)
+                    if m_ is None or not m_.has_self or (id(n_), "call") in done:
+                        continue
+                    ys = sorted({t_.attr for t_, _, _ in _stores_in(m_.node.body) if isinstance(t_, ast.Attribute) and isinstance(t_.value, ast.Name) and t_.value.id == m_.params[0]})
+                    # ... and that the statements AFTER the guarded region use (directly, or in a method they call): otherwise the
+                    # attribute is scratch of the region, not a value kept for the path that skips it
+                    after = after_of.get(id(stmts[0]), []) if stmts else []
+                    used = set()
+                    for a_ in after:
+                        for k_ in ast.walk(a_):
+                            if isinstance(k_, ast.Attribute) and isinstance(k_.value, ast.Name) and k_.value.id == sn and isinstance(k_.ctx, ast.Load):
+                                used.add(k_.attr)
+                                g_ = proj.resolve(f.cls, k_.attr)
+                                if g_ is not None and g_.has_self:
+                                    used |= {x_.attr for x_ in ast.walk(g_.node) if isinstance(x_, ast.Attribute) and isinstance(x_.value, ast.Name) and x_.value.id == g_.params[0] and isinstance(x_.ctx, ast.Load)}
+                    ys = [y_ for y_ in ys if y_ in used]
+                    if not ys:
+                        continue
+                    done.add((id(n_), "call"))
+                    stats["memo_stores"] += 1
+                    d = set()
+                    for a_ in list(n_.args) + [k_.value for k_ in n_.keywords]:
+                        d |= ctx.deps(a_, False)
+                    unc = {p_ for p_ in d if not _covers(cov, p_)}
+                    if unc:
+                        report(n_.lineno, ys[0], "cached attribute", unc, "(set by `%s` under the presence test `%s`)" % (unparse(n_)[:40], unparse(tests[0])[:80]))
+                    else:
+                        stats["covered"].append("%s.%s" % (f.qualname, ys[0]))
         for t, v, s in stores:
             if (id(s), t.attr) in done:
                 continue
